@@ -10,6 +10,14 @@ CHECKS = {
          "Every generated datagram (classes: random, bit flips, field swaps, re-signings under every other key, wrong signing bytes, boundary slots, sentinels, unknown/banned ids, truncated/padded, positive controls) is delivered to the real server at each (now, offset) configuration; a full state snapshot under the server's own lock before and after plus the report log bytes are compared with what an independent reference predicate and slot model allow. Held = no unacceptable datagram changed any observable and every acceptable one had exactly the model's effect, on the executions run.",
          "Trusts go-ethereum's secp256k1 verification, the verif-tag snapshot accessor (cross-checked against the public sync/recent-reports/stats surfaces), and that gated background jobs do nothing. Sampled input space, not exhaustive.",
          "DESIGN.md §4 C01"),
+ "C02": ("exploration", "runtime monitor: exhaustive short report sequences + permutation classes + random interleavings + socket bursts on a live server, judged by a set-valued slot model and the snapshot differ",
+         "Every sequence of acceptable reports of length <= 4 (thorough <= 5) over 6 (7) letters (value, re-signed same content, other value, capacity limit, limit+1, 2^63-1, 2^63) is run on a fresh slot of the real server and judged after every delivery against a model that is a function of the SET of 80-byte reports (a re-signed copy is a distinct report); all permutations of all multisets <= 4 over 10 letters must coincide; random interleavings over 3 devices x 6 slots, back-to-back socket bursts under concurrent load and one -race batch judge final values and 'nothing else changed' (stats, recent-reports, sync bit, snapshot). Exhaustive only for the stated short-sequence space; capacities >= 2^64/135 are out of the input domain.",
+         "Trusts lib/refenc and go-ethereum crypto, the VerifSlot/VerifSnapshot accessors (cross-checked against stats, recent-reports and sync on a sample), gated background jobs.",
+         "DESIGN.md §4 C02"),
+ "C06": ("exploration", "runtime monitor: model-based operation sequences through the JSON endpoint with per-operation full-state, file and surface comparison",
+         "64 (thorough 3000) random sequences of about 36 authorizations (valid, 8 bad-signature kinds, duplicates, conflicts in each field, conflicts carrying a fresh / another device's / a banned device's / the GCA key, banned ids), reports and restarts per server; after every operation the device table, public-key index, ban set, slots, the append-only authorization file, GET /equipment (bit-exact floats), sync, live stats and the archived week are compared with a reference model, and CheckInvariants runs under recover. By-key recent-reports lookups are complete after restarts and at sequence end, sampled otherwise. Re-signed duplicates may be treated as duplicate or conflict (both accepted, counted).",
+         "Trusts refenc encoders and crypto, the snapshot accessor, HTTP status classes as stated in the evidence assumptions.",
+         "DESIGN.md §4 C06"),
  "C03": ("exploration", "runtime monitor: gated real rotations + snapshot / reference-encoding oracles over generated report/ban/rotation/restart/query histories",
          "Every rotation executed (background and 1-3 week start-up catch-up) is judged slot- and bit-exactly against a snapshot taken at the hook just before it and an independent report model; label, contiguity from week 0, signature and allDeviceStats.dat are checked against reference encodings. Every archived week is re-fetched after every later operation of every kind and must stay identical to its first response (also after insert_false_negatives requests). Live, future and misaligned weeks and insert_false_negatives responses are judged per request. Histories are sampled (40 quick / 1500 thorough, up to 200 devices and 8 weeks).",
          "Trusts the hooks VerifSnapshot, migrate.beforeLock/migrate.done and gates, lib/refenc layouts, go-ethereum crypto, the test-mode clock. Impact values are only conserved, never predicted; the WattTime week-data path is dead in test builds.",
